@@ -276,6 +276,11 @@ func runPath(pr *program, cfg *config, solver *Solver, item workItem, seen *inte
 		withModel("no-fatal", "fatal")
 	case "race":
 		withModel("no-data-race", "race")
+	case "unwind":
+		// the unwinding bound was exceeded: either the bound is too small or the code does
+		// not terminate on these inputs. The driver replays the model natively with a
+		// time limit: a run that never ends is a violation, one that ends is "bound too small".
+		withModel("terminates-within-the-unwinding-bound", "unwind")
 	}
 	if item.Sample || len(res.Violations) > 0 {
 		smp := &PathSample{}
